@@ -45,6 +45,16 @@ SITES = {
     "string_name": ('<b tal:content="string:p${v} q">x</b>', "<b>p", " q</b>",
                     "text"),
     "pipe": ('<b tal:content="nosuch | {v}">x</b>', "<b>", "</b>", "text"),
+    # string: expressions inside an interpolation (in an element of their
+    # own: a string: body accepts anything up to the last brace of the text)
+    "interp_string": ('<b>${{string:p${{{v}}}q}}</b>', "<b>p", "q</b>",
+                      "text"),
+    "interp_string_name": ('<b>${{string:p${v} q}}</b>', "<b>p", " q</b>",
+                           "text"),
+    "interp_pipe_string": ('<b>${{nosuch | string:p${{{v}}}q}}</b>', "<b>p",
+                           "q</b>", "text"),
+    "dq_string": ('<a x="${{string:p${{{v}}}q}}"/>', '<a x="p', 'q"/>', "dq"),
+    "sq_string": ("<a x='${{string:p${{{v}}}q}}'/>", "<a x='p", "q'/>", "sq"),
     "dq": ('<a x="${{{v}}}"/>', '<a x="', '"/>', "dq"),
     "dq_mid": ('<a x="p${{{v}}}q"/>', '<a x="p', 'q"/>', "dq"),
     "sq": ("<a x='${{{v}}}'/>", "<a x='", "'/>", "sq"),
@@ -72,6 +82,21 @@ SITES = {
     "structure_expr": ("${{structure: {v}}}", "", "", "raw"),
     "cdata": ("<![CDATA[p${{{v}}}q]]>", "<![CDATA[p", "q]]>", "raw"),
 }
+HOSTS = [None, None, None, None, "script", "style", "textarea", "title",
+         "SCRIPT", "pre", "xmp", "svg", "noscript", "option"]
+
+
+def site_parts(s):
+    """(template snippet, output prefix, output suffix, context)"""
+    tpl, pre, suf, ctx = SITES[s["kind"]]
+    h = s.get("host")
+    if h:
+        tpl = "<%s>%s</%s>" % (h, tpl, h)
+        pre = "<%s>%s" % (h, pre)
+        suf = "%s</%s>" % (suf, h)
+    return tpl, pre, suf, ctx
+
+
 ESCAPED_SITES = [k for k, v in SITES.items() if v[3] != "raw"]
 RAW_SITES = [k for k, v in SITES.items() if v[3] == "raw"]
 
@@ -104,14 +129,19 @@ def cases(draw):
             # '--' may not occur in a comment in the first place
             text = text.replace("--", "- -")
         sites.append({"kind": kind, "cls": cls, "text": text,
-                      "num": draw(st.sampled_from([0, 7, -3, 1.5, 1e3]))})
+                      "num": draw(st.sampled_from([0, 7, -3, 1.5, 1e3])),
+                      # the element the site stands in (escaping does not
+                      # depend on its name)
+                      "host": draw(st.sampled_from(HOSTS))})
     return {"sites": sites, "mode": "xml",
             # implicit translation routes plain ${name} interpolations (and
             # the attribute 'x') through the translation machinery
             "implicit": draw(st.sampled_from([False, False, True]))}
 
 
-STRING_SITES = ("string_brace", "string_name", "attrs_string")
+STRING_SITES = ("string_brace", "string_name", "attrs_string",
+                "interp_string", "interp_string_name", "interp_pipe_string",
+                "dq_string", "sq_string")
 
 
 def is_raw(site):
@@ -157,7 +187,7 @@ def build(case, harmless=False):
     env = {}
     trans = {}
     for i, s in enumerate(case["sites"]):
-        tpl = SITES[s["kind"]][0]
+        tpl = site_parts(s)[0]
         var = "v%d" % i
         val, text = value_of(s, harmless, i)
         env[var] = val
@@ -249,7 +279,7 @@ class Escape(Part):
         pos = 0
         for i, s in enumerate(case["sites"]):
             kind = s["kind"]
-            _tpl, pre, suf, ctx = SITES[kind]
+            _tpl, pre, suf, ctx = site_parts(s)
             a, b = "[[%d:" % i, ":%d]]" % i
             ia = out.find(a, pos)
             ib = out.find(b, ia + len(a)) if ia >= 0 else -1
